@@ -8,7 +8,7 @@
    pipeline model is tied to the implementation byte for byte. *)
 From Coq Require Import String NArith List Bool.
 From RC Require Import lib.Result lib.Bytes model.Layout model.Flags model.ChkIo model.TrigTable model.RichCodec model.RichIo
-  proofs.Flags_proofs proofs.C03_proofs proofs.C10_proofs gen.GenFlags.
+  proofs.Flags_proofs proofs.C03_proofs proofs.C10_proofs proofs.C08_proofs proofs.C03_strings model.Str model.StrEditor gen.GenFlags.
 Import ListNotations.
 Local Open Scope N_scope.
 
@@ -40,3 +40,15 @@ Theorem C02_unmodelled_sections_untouched_partial :
     load d = Ok r -> nth_error d i = Some s -> unmodelled s = true -> save wd r = Ok d' -> nth_error d' i = Some s.
 Proof. intros d r wd d' i s Hl Hn Hu Hs. exact (unmodelled_section_survives d r r wd d' i s Hl Hn Hu eq_refl Hs). Qed.
 Print Assumptions C02_unmodelled_sections_untouched_partial.
+
+(* THE STRING TABLE OF AN UNEDITED MAP.  Everything decode_chk puts into the rich map mentions only texts the map's own
+   string table resolves (induction over sections, triggers, entries, arguments); so the rebuild before a save has nothing
+   to add, and the STR section is emitted exactly as it was loaded, at its position: every string number keeps its text. *)
+Theorem C02_unedited_save_emits_the_loaded_string_table :
+  forall d r wd d' m bin i,
+    load d = Ok r -> strs_named "STR " d = [m] ->
+    filter (named "STR ") r = [RDecodedStr "STR " 2 m] -> wf_table 2 m bin ->
+    save wd r = Ok d' -> nth_error d i = Some (DStr "STR " 2 m) ->
+    nth_error d' i = Some (DStr "STR " 2 m).
+Proof. exact unedited_save_emits_the_loaded_str. Qed.
+Print Assumptions C02_unedited_save_emits_the_loaded_string_table.
